@@ -617,12 +617,15 @@ func (c *Client) SendAndRead(ctx context.Context, dest *net.UDPAddr, p *dhcpv4.D
 		c.logger.PrintMessage("sent message", p)
 		defer rem()
 
+		// One timer per try: re-arming it on every loop iteration would let
+		// a stream of non-matching packets postpone the deadline forever.
+		deadline := time.After(timeout)
 		for {
 			select {
 			case <-c.done:
 				return ErrNoResponse
 
-			case <-time.After(timeout):
+			case <-deadline:
 				return errDeadlineExceeded
 
 			case <-ctx.Done():
